@@ -493,9 +493,11 @@ func (c *FnCtx) numberLoops(body *ast.BlockStmt) {
 
 // assignedIn collects the variables (objects) and pointer cells possibly modified by a statement.
 func (c *FnCtx) assignedIn(st *State, body ast.Node, extra ...ast.Node) (map[types.Object]bool, bool) {
-	objs := map[types.Object]bool{}
+	objs := map[types.Object]bool{} // true: fully assigned; false: only element writes (contents change, header kept)
 	cells := false
 	root := func(e ast.Expr) {
+		contentsOnly := false
+		first := true
 		for {
 			switch x := e.(type) {
 			case *ast.ParenExpr:
@@ -503,19 +505,36 @@ func (c *FnCtx) assignedIn(st *State, body ast.Node, extra ...ast.Node) (map[typ
 				continue
 			case *ast.SelectorExpr:
 				e = x.X
+				contentsOnly = false
+				first = false
 				continue
 			case *ast.IndexExpr:
+				if first {
+					contentsOnly = true
+				}
+				first = false
 				e = x.X
 				continue
 			case *ast.SliceExpr:
+				if first {
+					contentsOnly = true
+				}
+				first = false
 				e = x.X
 				continue
 			case *ast.StarExpr:
 				e = x.X
+				first = false
 				continue
 			case *ast.Ident:
 				if o := c.prog.Info.ObjectOf(x); o != nil {
-					objs[o] = true
+					if contentsOnly {
+						if _, seen := objs[o]; !seen {
+							objs[o] = false
+						}
+					} else {
+						objs[o] = true
+					}
 					if _, isPtr := o.Type().Underlying().(*types.Pointer); isPtr {
 						cells = true
 					}
@@ -551,14 +570,14 @@ func (c *FnCtx) assignedIn(st *State, body ast.Node, extra ...ast.Node) (map[typ
 				}
 			}
 			if id, ok := s.Fun.(*ast.Ident); ok && id.Name == "copy" && len(s.Args) > 0 {
-				root(s.Args[0])
+				root(&ast.IndexExpr{X: s.Args[0]})
 			}
 			if key := c.calleeKey(s); key != "" {
 				if ct := c.prog.Contracts.ByKey[key]; ct != nil && len(ct.Modifies) > 0 {
 					for i, pn := range c.calleeParamNames(ct, s) {
 						for _, m := range ct.Modifies {
 							if m == pn && i < len(s.Args) {
-								root(s.Args[i])
+								root(&ast.IndexExpr{X: s.Args[i]})
 							}
 						}
 					}
@@ -569,13 +588,13 @@ func (c *FnCtx) assignedIn(st *State, body ast.Node, extra ...ast.Node) (map[typ
 					objs[o] = true
 				}
 				if len(s.Args) > 0 {
-					root(s.Args[len(s.Args)-1])
+					root(&ast.IndexExpr{X: s.Args[len(s.Args)-1]})
 				}
 			}
 			// sort.Slice / slices.Sort / sort.Sort modify their argument
 			if name := c.externName(s); name == "sort.Slice" || name == "slices.Sort" || name == "sort.Sort" || name == "slices.SortFunc" {
 				if len(s.Args) > 0 {
-					root(s.Args[0])
+					root(&ast.IndexExpr{X: s.Args[0]})
 				}
 			}
 		case *ast.FuncLit:
@@ -620,6 +639,16 @@ func (c *FnCtx) havoc(st *State, objs map[types.Object]bool, cells bool, hint st
 				st.cells[p.Cell] = c.havocLike(st, cv, o.Name()+"_cell")
 			}
 			continue
+		}
+		if !objs[o] {
+			// only elements were written: keep the header
+			if sl, ok := old.(*SliceVal); ok {
+				h := c.havocLike(st, sl, o.Name()).(*SliceVal)
+				n := sl.copyHdr()
+				n.Leaves = h.Leaves
+				st.env[o] = n
+				continue
+			}
 		}
 		st.env[o] = c.havocLike(st, old, o.Name())
 	}
@@ -747,10 +776,16 @@ func (c *FnCtx) execRange(st *State, x *ast.RangeStmt) Outcome {
 			}
 			i := s.env[idxObj].(SV)
 			s.env[idxObj] = SV{c.define("i", S64, app("bvadd", i.T, bvInt(1, 64))), S64, true}
+			if keyObj != nil {
+				s.env[keyObj] = s.env[idxObj] // invariants speak about the key variable as "next index"
+			}
 			return s
 		}
 		auto := func(s *State) string {
 			i := s.env[idxObj].(SV)
+			if keyObj != nil {
+				s.env[keyObj] = i
+			}
 			return and(app("bvsle", bvInt(0, 64), i.T), app("bvsle", i.T, entryLen))
 		}
 		if keyObj != nil {
